@@ -143,9 +143,15 @@ func (dmx *Demuxer) NextData() (d *DemuxerData, err error) {
 						break
 					}
 
+					// Packets whose payload unit start was never seen are not parsed
+					prs, ok := dmx.packetsParser(ps)
+					if !ok {
+						continue
+					}
+
 					// Parse data
 					var errParseData error
-					if ds, errParseData = parseData(ps, dmx.optPacketsParser, dmx.programMap); errParseData != nil {
+					if ds, errParseData = parseData(ps, prs, dmx.programMap); errParseData != nil {
 						// Log error as there may be some incomplete data here
 						// We still want to try to parse all packets, in case final data is complete
 						dmx.l.Error(fmt.Errorf("astits: parsing data failed: %w", errParseData))
@@ -169,8 +175,14 @@ func (dmx *Demuxer) NextData() (d *DemuxerData, err error) {
 			continue
 		}
 
+		// Packets whose payload unit start was never seen are not parsed
+		prs, ok := dmx.packetsParser(ps)
+		if !ok {
+			continue
+		}
+
 		// Parse data
-		if ds, err = parseData(ps, dmx.optPacketsParser, dmx.programMap); err != nil {
+		if ds, err = parseData(ps, prs, dmx.programMap); err != nil {
 			err = fmt.Errorf("astits: building new data failed: %w", err)
 			return
 		}
@@ -180,6 +192,23 @@ func (dmx *Demuxer) NextData() (d *DemuxerData, err error) {
 			return
 		}
 	}
+}
+
+// packetsParser returns the packets parser that applies to a set of flushed packets. When the start of their payload
+// unit was never seen (its first packets were lost, or the stream was joined in the middle of it), what is left can't
+// be told apart from a real payload unit (video payloads are full of PES start codes): it's only handed to the custom
+// parser, and ok is false if there's none
+func (dmx *Demuxer) packetsParser(ps []*Packet) (prs PacketsParser, ok bool) {
+	if ps[0].Header.PayloadUnitStartIndicator {
+		return dmx.optPacketsParser, true
+	}
+	if dmx.optPacketsParser == nil {
+		return nil, false
+	}
+	return func(ps []*Packet) (ds []*DemuxerData, skip bool, err error) {
+		ds, _, err = dmx.optPacketsParser(ps)
+		return ds, true, err
+	}, true
 }
 
 func (dmx *Demuxer) updateData(ds []*DemuxerData) (d *DemuxerData) {
